@@ -1,2 +1,30 @@
-From Cmr Require Import Base Det GraphModel.
-Theorem placeholder_C14 : True. Proof. exact I. Qed.
+(* Properties_C14.v — C14: representation-matrix construction and its round trip through recognition. *)
+From Coq Require Import Permutation.
+From Cmr Require Import Base Det BaseProofs GraphModel GraphProofs.
+Local Open Scope Z_scope.
+
+(* matrix -> graph -> matrix is the identity: the fundamental-cycle matrix of a forest is unique, so any matrix that
+   satisfies the fundamental-cycle specification for the graph returned by recognition IS the recognised matrix *)
+Theorem C14_roundtrip_unsigned : forall m n M M' T C,
+  is_forest T -> is_binary M = true -> is_binary M' = true ->
+  wf_mat m n M = true -> wf_mat m n M' = true ->
+  fund_cycle_spec m n M T C -> fund_cycle_spec m n M' T C -> M = M'.
+Proof. exact FundCycle_functional. Qed.
+Print Assumptions C14_roundtrip_unsigned.
+
+Theorem C14_roundtrip_signed : forall m n M M' T C,
+  is_forest T -> wf_mat m n M = true -> wf_mat m n M' = true ->
+  network_spec m n M T C -> network_spec m n M' T C -> M = M'.
+Proof. exact Network_functional. Qed.
+Print Assumptions C14_roundtrip_signed.
+
+(* the path search used by the certificate check returns a simple path that uses exactly the given edges *)
+Theorem C14_path_search_sound : forall es u v p,
+  path_of es u v = Some p -> simple_path es u v p /\ Permutation (map fst p) es.
+Proof. exact path_of_sound. Qed.
+Print Assumptions C14_path_search_sound.
+
+(* a list accepted by the leaf-stripping test is a forest in the inductive sense used for uniqueness *)
+Theorem C14_acyclic_is_forest : forall T, acyclic T = true -> is_forest T.
+Proof. exact acyclic_forest. Qed.
+Print Assumptions C14_acyclic_is_forest.
